@@ -194,6 +194,30 @@ fn json_utf8_sites(g: &mut G) {
 	}
 }
 
+/// the JSON parser accepts 1024 nested arrays/objects and must answer `err` beyond (since f7196604);
+/// the 100 000-level documents are the crash probe (child process)
+fn json_limit(g: &mut G) {
+	for d in [1023usize, 1024, 1025, 1026, 1500, 2000] {
+		let arr = format!("{}{}", "[".repeat(d), "]".repeat(d));
+		let obj = format!("{}1{}", "{\"a\":".repeat(d), "}".repeat(d));
+		let mixed = format!("{}{}", "[{\"k\":".repeat(d / 2), "}]".repeat(d / 2));
+		for doc in [arr, obj, mixed] {
+			g.push("json", "nesting-limit-json", doc.clone().into_bytes(), "");
+			g.push("jsonstr", "nesting-limit-json", doc.clone().into_bytes(), "");
+			g.push("tilejson", "nesting-limit-json", format!("{{\"x\":{doc}}}").into_bytes(), "");
+		}
+		// unbalanced: only the opening brackets, and garbage after a valid shallow value
+		g.push("json", "nesting-limit-json", "[".repeat(d).into_bytes(), "");
+		g.push("json", "nesting-limit-json", format!("1 {}", "[".repeat(d)).into_bytes(), "");
+		g.push("json", "nesting-limit-json", format!("[\"{}\"]", "[".repeat(d)).into_bytes(), "");
+	}
+	for d in [20_000usize, 100_000] {
+		g.push("json", "nesting-deep", format!("{}{}", "[".repeat(d), "]".repeat(d)).into_bytes(), "");
+		g.push("json", "nesting-deep", format!("{}1{}", "{\"a\":".repeat(d), "}".repeat(d)).into_bytes(), "");
+		g.push("tilejson", "nesting-deep", format!("{{\"x\":{}1{}}}", "{\"a\":".repeat(d), "}".repeat(d)).into_bytes(), "");
+	}
+}
+
 fn nesting(g: &mut G, thorough: bool) {
 	let depths: &[usize] = if thorough { &[1, 2, 16, 100, 512, 1000, 2000, 5000] } else { &[1, 2, 16, 100, 512] };
 	for &d in depths {
@@ -767,7 +791,7 @@ fn pm_custom(root: &[u8], meta: &[u8], leaves: &[u8], data: &[u8]) -> Vec<u8> {
 	f
 }
 
-fn pm_cases(g: &mut G, n: usize, thorough: bool) {
+fn pm_cases(g: &mut G, n: usize, _thorough: bool) {
 	let e = |id, off, len, run| ifm::PmEntry { id, off, len, run };
 	let probes = "0/0/0,1/0/0,1/1/1,2/1/1,3/4/4,10/5/5";
 	let data = b"AAAABBBBCCCC";
@@ -810,12 +834,7 @@ fn pm_cases(g: &mut G, n: usize, thorough: bool) {
 			vec![e(0, big.min(u64::MAX - 1), big, 0)],
 		];
 		for es in variants {
-			// a run length of ~2^31 or more makes `open` loop for minutes (known finding, kind timeout):
-			// two such cases in the quick tier are enough
-			let huge_run = es.iter().any(|x| (x.run as u32) > (1 << 24));
-			if huge_run && !thorough && big != (1 << 31) && big != u64::MAX {
-				continue;
-			}
+			// (a run length of ~2^31 made `open` loop for minutes before /repo 0189261d)
 			let root = ifm::serialize_dir(&es, false);
 			g.push("pm", "length-field", pm_custom(&root, meta, &[], data), probes);
 			g.push("pmfind", "length-field", root.clone(), "0,1,2,3,4,5");
@@ -1181,6 +1200,7 @@ pub fn generate(args: &Args) -> Vec<Case> {
 	let thorough = args.thorough();
 	json_utf8_sites(&mut g);
 	nesting(&mut g, thorough);
+	json_limit(&mut g);
 	absolute_offsets(&mut g);
 	vpl_limit(&mut g, thorough);
 	tilejson_cases(&mut g, args.n(600, 10000));
